@@ -2,7 +2,7 @@
    bytecode equality, VM results (byte-level and instruction-level fetch), source semantics vs the Go toolchain. *)
 From Coq Require Import List ZArith Bool String.
 From RG.Base Require Import Outcome GoInt GoSlice.
-From RG.Quasigo Require Import Source Bytecode Compile VM Sem Guards.
+From RG.Quasigo Require Import Source Bytecode Compile VM Sem Guards Link.
 Import ListNotations.
 Local Open Scope Z_scope.
 
@@ -47,7 +47,6 @@ Section Checks.
 Variable cfg : config.
 Variable fuel : nat.
 
-Definition cfunc_consts (c : cfunc) : list value := map VStr (cf_consts c).
 
 (* issue codes *)
 Definition c_model_rejects : Z := 1.      (* model: compile error, implementation: accepted *)
@@ -103,8 +102,6 @@ Definition sem_matches (r : eres (option value)) (x : xres) : option bool :=
 Definition vfuncs_bytes (ds : list dump) : list vfunc :=
   map (fun d => vfunc_of_bytes cfg (d_code d) (d_consts d) (d_iconsts d) (d_nobj d) (d_nint d)) ds.
 
-Definition vfunc_of_cfunc (c : cfunc) : vfunc :=
-  mkvfunc (instr_at (cf_code c)) (cfunc_consts c) (cf_iconsts c) (cf_nobj c) (cf_nint c).
 
 Definition fun_res_ty (f : fundecl) : ty := match fd_results f with [t] => t | _ => TVoid end.
 
